@@ -402,6 +402,7 @@ class StoredTruthLeg(object):
             "reopen": st.booleans(),
             "file_db": st.booleans(),
             "margins": st.lists(st.sampled_from([0, 1, 2, 500, 5000, 200000]), min_size=2, max_size=4),
+            "merge_all": st.booleans(),
         })
 
     def classify(self, case):
@@ -422,16 +423,20 @@ class StoredTruthLeg(object):
         db = gffutils.create_db("\n".join(l1) + "\n", dbfn, from_string=True)
         list(db.all_features(limit=("chr1", 1, 10000)))
         db.update(ctx.write("h2.gtf", "\n".join(l2) + "\n"), make_backup=False)
+        if case.get("merge_all"):
+            db.merge_all()  # stores one more feature per run of overlapping features of a type
         if case["reopen"] and case["file_db"]:
             db.conn.close()
             db = gffutils.FeatureDB(dbfn)
         stored = [{"id": f.id, "seqid": f.seqid, "start": f.start, "end": f.end, "ft": f.featuretype} for f in db.all_features()]
-        if sum(1 for f in stored if f["ft"] == "exon") != len(l1) + len(l2):
+        if not case.get("merge_all") and sum(1 for f in stored if f["ft"] == "exon") != len(l1) + len(l2):
             return Failure("%d exon lines given, %d stored" % (len(l1) + len(l2), sum(1 for f in stored if f["ft"] == "exon")), sig={"kind": "row-count"})
         nq = 0
         for f in stored:
-            for m in case["margins"]:
+            for m, tail_only in [(m_, False) for m_ in case["margins"]] + [(case["margins"][0], True)]:
                 s, e = max(1, f["start"] - m), f["end"] + m
+                if tail_only:
+                    s = f["end"]  # a window that touches only the feature's last base and what follows
                 for w in (False, True):
                     pred = within if w else overlaps
                     for ft in (None, "gene", "transcript"):
